@@ -101,13 +101,25 @@ theorem py_negotiate_scalars_eq_model (oursAs oursHold theirsAs theirsHold : Nat
         s.asn4.isSome r.asn4.isSome s.operational r.operational s.enhanced r.enhanced s.refresh r.refresh
         s.extMsg r.extMsg s.linkLocal r.linkLocal =
       .ret () (scalarsOf (negotiateSets oursAs oursHold theirsAs theirsHold s r)) := by
+  -- the minimum of the two hold times, however the code writes it (`min`, or a conditional either way round)
   have hmin : (min (oursHold : Int) (theirsHold : Int)) = ((min oursHold theirsHold : Nat) : Int) := by omega
-  have htr : ((theirsAs : Int) == 23456) = decide (theirsAs = asTrans) := by
-    unfold asTrans; by_cases h : theirsAs = 23456 <;> simp [h] <;> omega
-  unfold PyNego.Negotiating.negotiate_scalars scalarsOf negotiateSets
-  simp only [hr, hm, PyNego.refreshAbsent, PyNego.initialSize, hmin, htr]
+  have hmin' : (min (theirsHold : Int) (oursHold : Int)) = ((min oursHold theirsHold : Nat) : Int) := by omega
+  have hc1 : (if theirsHold < oursHold then (theirsHold : Int) else oursHold) = ((min oursHold theirsHold : Nat) : Int) := by
+    split <;> omega
+  have hc2 : (if oursHold < theirsHold then (oursHold : Int) else theirsHold) = ((min oursHold theirsHold : Nat) : Int) := by
+    split <;> omega
+  have hc3 : (if theirsHold ≤ oursHold then (theirsHold : Int) else oursHold) = ((min oursHold theirsHold : Nat) : Int) := by
+    split <;> omega
+  have hc4 : (if oursHold ≤ theirsHold then (oursHold : Int) else theirsHold) = ((min oursHold theirsHold : Nat) : Int) := by
+    split <;> omega
+  have htr : ((theirsAs : Int) == 23456) = decide (theirsAs = 23456) := by
+    by_cases h : theirsAs = 23456 <;> simp [h] <;> omega
+  have htr' : ((theirsAs : Int) != 23456) = !decide (theirsAs = 23456) := by
+    by_cases h : theirsAs = 23456 <;> simp [h] <;> omega
+  unfold PyNego.Negotiating.negotiate_scalars scalarsOf negotiateSets asTrans
+  simp only [hr, hm, PyNego.refreshAbsent, PyNego.initialSize, hmin, hmin', htr, htr']
   cases hs4 : s.asn4 <;> cases hr4 : r.asn4 <;> cases s.enhanced <;> cases r.enhanced <;> cases s.refresh <;>
-    cases r.refresh <;> cases s.extMsg <;> cases r.extMsg <;> by_cases ht : theirsAs = asTrans <;>
-    simp [ht, Refresh.code, initialSize, extendedSize, Bool.and_comm]
+    cases r.refresh <;> cases s.extMsg <;> cases r.extMsg <;> by_cases ht : theirsAs = 23456 <;>
+    simp [ht, Refresh.code, initialSize, extendedSize, Bool.and_comm, hc1, hc2, hc3, hc4]
 
 end Exa.Open
